@@ -416,3 +416,65 @@ func SmallXPoints(n int) []Point {
 	}
 	return out
 }
+
+// NearCurvePoints returns off-curve pairs (x, y) for the on-curve point q whose y^2 differs from x^3+ax+b only in a
+// structured set of bits of the value *or of its Montgomery representation* (value * 2^256 mod p): single bits, the high
+// or low half of each 64-bit limb, a single limb. A curve check that compares truncated or folded limbs accepts some of
+// them; a correct check rejects all. Patterns whose target is not a quadratic residue are skipped.
+func NearCurvePoints(q Point) (xs, ys []*big.Int, names []string) {
+	rhs := new(big.Int).Mul(q.Y, q.Y)
+	rhs.Mod(rhs, P)
+	R := new(big.Int).Lsh(big.NewInt(1), 256)
+	Rinv := new(big.Int).ModInverse(R, P)
+	exp := new(big.Int).Add(P, big.NewInt(1))
+	exp.Rsh(exp, 2)
+	var masks []*big.Int
+	var mnames []string
+	for i := 0; i < 256; i += 3 {
+		masks = append(masks, new(big.Int).Lsh(big.NewInt(1), uint(i)))
+		mnames = append(mnames, "bit"+itoa(i))
+	}
+	for limb := 0; limb < 4; limb++ {
+		hi := new(big.Int).Lsh(new(big.Int).SetUint64(0xffffffff00000000), uint(64*limb))
+		lo := new(big.Int).Lsh(new(big.Int).SetUint64(0x00000000ffffffff), uint(64*limb))
+		one := new(big.Int).Lsh(new(big.Int).SetUint64(0x0000000100000000), uint(64*limb))
+		top := new(big.Int).Lsh(new(big.Int).SetUint64(0x8000000000000000), uint(64*limb))
+		masks = append(masks, hi, lo, one, top)
+		mnames = append(mnames, "limb"+itoa(limb)+"hi", "limb"+itoa(limb)+"lo", "limb"+itoa(limb)+"bit32", "limb"+itoa(limb)+"bit63")
+	}
+	allhi := new(big.Int)
+	for limb := 0; limb < 4; limb++ {
+		allhi.Or(allhi, new(big.Int).Lsh(new(big.Int).SetUint64(0xabcdef1200000000), uint(64*limb)))
+	}
+	masks = append(masks, allhi)
+	mnames = append(mnames, "allhi")
+	for mi, m := range masks {
+		for _, mont := range []bool{false, true} {
+			t := new(big.Int).Set(rhs)
+			if mont {
+				t.Mul(t, R).Mod(t, P)
+			}
+			t.Xor(t, m)
+			if t.Cmp(P) >= 0 {
+				continue
+			}
+			if mont {
+				t.Mul(t, Rinv).Mod(t, P)
+			}
+			y := new(big.Int).Exp(t, exp, P)
+			if new(big.Int).Exp(y, big.NewInt(2), P).Cmp(t) != 0 || OnCurve(q.X, y) {
+				continue
+			}
+			xs = append(xs, new(big.Int).Set(q.X))
+			ys = append(ys, y)
+			n := mnames[mi]
+			if mont {
+				n += ":mont"
+			}
+			names = append(names, n)
+		}
+	}
+	return
+}
+
+func itoa(i int) string { return big.NewInt(int64(i)).String() }
